@@ -579,7 +579,8 @@ func targetCells(s *slot, sh shape, lane int) (f *file, lo, hi int, specials []s
 
 type outcome struct {
 	panicMsg string
-	got      []byte // answer of a read
+	got      []byte // answer of a read: the slice the implementation handed out (it may alias implementation storage)
+	snap     []byte // copy of got taken the moment it was returned
 	want     []byte
 	bad      bool
 }
@@ -666,6 +667,7 @@ func (w *world) apply(s *slot, o op, pos int) (out outcome) {
 		want = w8[:]
 	}
 	out.got = got
+	out.snap = append([]byte(nil), got...)
 	if !bytes.Equal(got, want) {
 		out.bad = true
 		out.want = append([]byte(nil), want...)
@@ -1193,6 +1195,21 @@ func (c *checker) runHistory(wk *worker, hist []op, st *stats) {
 			run(wk.tim, a, nil)
 		}
 	}
+	// an answer that was handed out stays what it was: later operations must not rewrite it
+	for wi, outs := range [][]outcome{emuOuts, cOuts} {
+		for i, o := range outs {
+			if o.panicMsg == "" && !bytes.Equal(o.got, o.snap) {
+				mode, actor := "emu", "E0"
+				if wi == 1 {
+					mode, actor = "timing", "C"
+				}
+				c.report(&finding{sig: mode + "/answer-of-an-earlier-read-rewritten-by-a-later-operation",
+					msg: fmt.Sprintf("%s returned %x; after the rest of the history %s the slice it returned holds %x (the answers share storage)", hist[i], o.snap, historyString(hist[i+1:]), o.got),
+					rc: replayCase{World: mode, Actor: actor, History: append([]op(nil), hist...)}})
+				return
+			}
+		}
+	}
 	if !hasReset {
 		// direct emu-vs-timing comparison of the per-operation outcomes
 		n := len(emuOuts)
@@ -1577,6 +1594,25 @@ func replay(r *harness.Run, full []op) {
 		}
 	}
 	fmt.Printf("replaying on the %s world, acting wavefront %s: %s\n", w.mode, actor.name, historyString(hist))
+	if strings.Contains(f.Signature, "answer-of-an-earlier-read-rewritten") {
+		w.softReset()
+		if w.fresh != nil {
+			w.fresh()
+		}
+		var outs []outcome
+		for pos, o := range hist {
+			outs = append(outs, w.apply(actor, o, pos))
+		}
+		for i, o := range outs {
+			fmt.Printf("  op %d %s returned %x; the returned slice now holds %x\n", i, hist[i], o.snap, o.got)
+			if o.panicMsg == "" && !bytes.Equal(o.got, o.snap) {
+				fmt.Printf("VIOLATION property=C07 replay=%s\n  signature: %s\n", r.Replay, f.Signature)
+				os.Exit(1)
+			}
+		}
+		fmt.Println("replay: no violation")
+		os.Exit(0)
+	}
 	var first string
 	for i := 0; i < 3; i++ { // determinism guard
 		fd := w.runDetailed(actor, hist, nil)
